@@ -63,6 +63,7 @@ def run(ctx: Ctx) -> None:
     busy_flag(ctx, py, rs)
     image_renderer(ctx, py)
     storage_shape(ctx, py)
+    shared_chip_objects(ctx, py)
     ctx.extra["exhaustive"] = True
 
 
@@ -1055,3 +1056,42 @@ def pipeline_delivers(ctx: Ctx, py: PyProgram) -> None:
                     ctx.instance("C15.3/pipeline-delivers", "commands x chip selects x column positions through LCDPipeline._apply_command (interpreted): one chip call per selected chip", n, 1)
                     return
     ctx.instance("C15.3/pipeline-delivers", "commands x chip selects x column positions through LCDPipeline._apply_command (interpreted): one chip call per selected chip", n, 36)
+
+
+def shared_chip_objects(ctx: Ctx, py: PyProgram) -> None:
+    """The controller front end and the command pipeline work on the *same* chip objects: `self.A = self.B.C` in a constructor makes
+    A an alias of the collaborator's C.  Re-binding either name outside a constructor splits them - reads go to one set of chips,
+    writes to the other (after a snapshot restore, a reset ..)."""
+    mods = [py.module(f) for f in (CW_PY, "pce500/display/pipeline.py")]
+    classes = {c.name: (m, c) for m in mods for c in ast.walk(m.tree) if isinstance(c, ast.ClassDef)}
+    n = 0
+    for cname, (m, c) in sorted(classes.items()):
+        init = next((f for f in c.body if isinstance(f, ast.FunctionDef) and f.name == "__init__"), None)
+        if init is None:
+            continue
+        field_cls = {}
+        for st in ast.walk(init):
+            if isinstance(st, ast.Assign) and len(st.targets) == 1 and attr_chain(st.targets[0]) and attr_chain(st.targets[0]).startswith("self.") and isinstance(st.value, ast.Call) and isinstance(st.value.func, ast.Name):
+                field_cls[attr_chain(st.targets[0])[5:]] = st.value.func.id
+        for st in ast.walk(init):
+            if not (isinstance(st, ast.Assign) and len(st.targets) == 1):
+                continue
+            tgt, src = attr_chain(st.targets[0]), attr_chain(st.value) if isinstance(st.value, ast.Attribute) else None
+            if not (tgt and src and tgt.startswith("self.") and tgt.count(".") == 1 and src.startswith("self.") and src.count(".") == 2):
+                continue
+            a, b, cfield = tgt[5:], src.split(".")[1], src.split(".")[2]
+            n += 1
+            owners = [(cname, m, c, a)]
+            if field_cls.get(b) in classes:
+                om, oc = classes[field_cls[b]]
+                owners.append((oc.name, om, oc, cfield))
+            for oname, om, oc, fld in owners:
+                for f in [f for f in oc.body if isinstance(f, ast.FunctionDef) and f.name != "__init__"]:
+                    for x in ast.walk(f):
+                        ts = x.targets if isinstance(x, ast.Assign) else [x.target] if isinstance(x, (ast.AugAssign, ast.AnnAssign)) else []
+                        for t in ts:
+                            for e in (t.elts if isinstance(t, (ast.Tuple, ast.List)) else [t]):
+                                if attr_chain(e) == "self." + fld:
+                                    ctx.violation("C15.5/shared-chips", key_of(om.rel, f"{oname}.{f.name}", f"self.{fld} re-bound"),
+                                                  f"{oname}.{f.name} re-binds self.{fld}, which {cname}.__init__ shares with its collaborator (`{unparse(st)}`): afterwards the front end and the pipeline act on different chip objects", f"{om.rel}:{x.lineno}")
+    ctx.instance("C15.5/shared-chips", "constructor aliases of a collaborator's attribute in the display layer; neither side is re-bound later", n, 1)
